@@ -6,6 +6,7 @@ use crate::verdict::{self, Meta};
 use std::sync::Arc;
 use std::time::Instant;
 
+pub mod c01;
 pub mod c02;
 pub mod c03;
 pub mod c04;
@@ -87,6 +88,7 @@ pub struct Check {
 
 pub fn get(id: &str, tier: Tier) -> Option<Check> {
     Some(match id {
+        "C01" => c01::check(tier),
         "C02" => c02::check(tier),
         "C03" => c03::check(tier),
         "C04" => c04::check(tier),
@@ -110,7 +112,7 @@ pub fn get(id: &str, tier: Tier) -> Option<Check> {
     })
 }
 
-pub const ALL: &[&str] = &["C02", "C03", "C04", "C05", "C06", "C07", "C08", "C09", "C10", "C11", "C12", "C13", "C14", "C15", "C16", "C17", "C18", "C19", "C20"];
+pub const ALL: &[&str] = &["C01", "C02", "C03", "C04", "C05", "C06", "C07", "C08", "C09", "C10", "C11", "C12", "C13", "C14", "C15", "C16", "C17", "C18", "C19", "C20"];
 
 /// Stream-local seed for scenario `idx`.
 pub fn sseed(ctx: &Ctx, stream: &str, idx: u64) -> u64 {
